@@ -520,18 +520,30 @@ func doCheck(cfg *CheckCfg, tier, patch string, seed int64, scratch string, star
 	known := loadKnown()
 	var fresh []Violation
 	var knownHit []string
+	// one line per listed finding, however many cases of this run fall under it
+	hitCount := map[int]int{}
+	hitFirst := map[int]string{}
 	for _, v := range m.violations {
 		matched := false
-		for _, k := range known.Findings {
+		for ki, k := range known.Findings {
 			if k.Property == id && keyMatches(k.Key, v.Key) {
 				matched = true
-				line := fmt.Sprintf("KNOWN-FINDING: property=%s %s [key=%s]", id, k.What, v.Key)
-				knownHit = append(knownHit, line)
+				if hitCount[ki] == 0 {
+					hitFirst[ki] = v.Key
+				}
+				hitCount[ki]++
 				break
 			}
 		}
 		if !matched {
 			fresh = append(fresh, v)
+		}
+	}
+	for ki, k := range known.Findings {
+		if n := hitCount[ki]; n == 1 {
+			knownHit = append(knownHit, fmt.Sprintf("KNOWN-FINDING: property=%s %s [key=%s]", id, k.What, hitFirst[ki]))
+		} else if n > 1 {
+			knownHit = append(knownHit, fmt.Sprintf("KNOWN-FINDING: property=%s %s [%d cases of this run, first key=%s]", id, k.What, n, hitFirst[ki]))
 		}
 	}
 	sort.Strings(knownHit)
